@@ -9,7 +9,8 @@ trap 'rm -rf "$TMP"' EXIT
 rsync -a --exclude .git "${VERIF_REPO:-/repo}/" "$TMP/repo/" || exit 2
 ( cd "$TMP/repo" && git apply --whitespace=nowarn "$D/patch.diff" ) 2>/dev/null || ( cd "$TMP/repo" && patch -p1 -s --fuzz=3 < "$D/patch.diff" ) >/dev/null 2>&1 || { echo "$NAME $PROPS APPLY-FAILED"; exit 0; }
 ( cd "$TMP/repo" && go build ./... ) >/dev/null 2>&1 || { echo "$NAME $PROPS BUILD-FAILED"; exit 0; }
-OUT=$(${FINLINT:-/verif/bin/finlint} -repo "$TMP/repo" -verif /verif -property "$PROPS" -no-evidence 2>&1)
+OUT=$(${FINLINT:-/verif/bin/finlint} -repo "$TMP/repo" -verif /verif -property "$PROPS" -no-evidence 2>&1); RC=$?
+if [ $RC -ne 0 ] && [ $RC -ne 1 ]; then echo "$NAME $PROPS CHECKER-CRASHED rc=$RC"; printf '%s\n' "$OUT" | grep -m3 -i 'panic\|fatal\|goroutine' | sed "s/^/    /"; exit 0; fi
 N=$(printf '%s\n' "$OUT" | grep -c '^VIOLATION')
 if [ "$N" -gt 0 ]; then
   echo "$NAME $PROPS ALARM $N"
